@@ -857,6 +857,13 @@ func C17(c *core.Ctx) {
 					return
 				}
 				nLit++
+				// a construction shared by both outgoing pipelines (one helper, two
+				// callers) stands for one construction per caller
+				if fn.Parent() == nil {
+					if cs := p.Callers(fn); len(cs) >= 2 {
+						nLit += len(cs) - 1
+					}
+				}
 				c.Funcs[core.FuncName(fn)] = true
 				okLit := false
 				for _, r := range core.Refs(al) {
